@@ -399,10 +399,13 @@ class Spectrum:
             An array of sampled values.
 
         """
+        spectrum = self
         if waveunit != self.waveunit:
-            self.to(waveunit)
+            # convert a copy so that sampling leaves this Spectrum unchanged
+            spectrum = self.copy()
+            spectrum.to(waveunit)
 
-        interp = scipy.interpolate.interp1d(self.wave, self.value, kind=method,
+        interp = scipy.interpolate.interp1d(spectrum.wave, spectrum.value, kind=method,
                                             copy=False, bounds_error=False,
                                             fill_value=fill_value)
 
@@ -511,7 +514,13 @@ class Spectrum:
                              'wavelength, consider using Spectrum.integrate() instead.')
 
         if waveunit != self.waveunit:
-            self.to(waveunit)
+            # bin a converted copy so that this Spectrum is left unchanged
+            spectrum = self.copy()
+            spectrum.to(waveunit)
+            return spectrum.bin(wave, interp_method=interp_method, ends=ends,
+                                preserve_power=preserve_power,
+                                sample_method=sample_method,
+                                fill_value=fill_value, waveunit=waveunit)
 
         if interp_method == 'trapz':
             dx = np.diff(wave)/2
@@ -525,7 +534,8 @@ class Spectrum:
                 raise ValueError('Unknown ends ', ends)
 
             # sample
-            f = self.sample(x, method=sample_method, fill_value=fill_value)
+            f = self.sample(x, method=sample_method, fill_value=fill_value,
+                            waveunit=waveunit)
 
             # apply the chained trapezoidal rule
             bins = np.array([])
@@ -550,7 +560,8 @@ class Spectrum:
                 raise ValueError('Unknown ends ', ends)
 
             # sample
-            f = self.sample(x, method=sample_method, fill_value=fill_value)
+            f = self.sample(x, method=sample_method, fill_value=fill_value,
+                            waveunit=waveunit)
 
             # apply the chained simpson's rule
             bins = np.array([])
@@ -899,6 +910,12 @@ def _interp_common(s1, s2, sampling, method, fill_value):
     """
     # compute a common wavelength array that spans both spectrum and has the
     # desired sampling
+    if s2.waveunit != s1.waveunit:
+        # express the second operand in the first operand's wavelength unit
+        # (on a copy: the operands themselves are left unchanged)
+        s2 = s2.copy()
+        s2.to(s1.waveunit)
+
     minwave = min(s1.wave.min(), s2.wave.min())
     maxwave = max(s1.wave.max(), s2.wave.max())
 
@@ -915,8 +932,10 @@ def _interp_common(s1, s2, sampling, method, fill_value):
     s2_wave = commonwave[s2_index]
 
     # sample each Spectrum at the requested sampling
-    s1_samplevalue = s1.sample(s1_wave, method=method, fill_value=fill_value)
-    s2_samplevalue = s2.sample(s2_wave, method=method, fill_value=fill_value)
+    s1_samplevalue = s1.sample(s1_wave, method=method, fill_value=fill_value,
+                               waveunit=s1.waveunit)
+    s2_samplevalue = s2.sample(s2_wave, method=method, fill_value=fill_value,
+                               waveunit=s1.waveunit)
 
     # create nominal value arrays
     s1_value = fill_value * np.ones(commonwave.shape)
